@@ -22,7 +22,10 @@ access `e.a` and `e has a` on RECORD-typed terms (`compile_attrs_of`, `compile_h
 `record_get`, `is_some`), the context term of a FLAT context type as `Term::from_value` builds it (`ctxTermOf`: required
 attribute ↦ literal, optional present ↦ `some lit`, optional absent ↦ `none ty`).
 
-Outside this model (`CErr.outside`): slots, unknowns, `like`, `is`, `has`/`.` on ENTITY-typed terms, sets, record
+LATER ADDITION to `SFrag2`: `e like pat` (`compile_like`, factory `string_like`) and `e is T` (`compile_is`), both wrapped
+in `if_some(t1, …)` exactly as symcc/compiler.rs AND symccopt/compiler.rs do (an erroring operand gives `none`).
+
+Outside this model (`CErr.outside`): slots, unknowns, `has`/`.` on ENTITY-typed terms, sets, record
 literals, extension calls, `isEmpty`, `in`, `contains*`, `hasTag/getTag`, extension-typed terms, non-flat contexts.
 -/
 namespace Cedar.SymC
@@ -54,6 +57,7 @@ inductive Op where
   | bvneg | bvadd | bvsub | bvmul | bvslt | bvsle | bvnego | bvsaddo | bvssubo | bvsmulo
   | optionGet
   | recordGet (a : Attr)
+  | stringLike (p : Pattern)
 deriving DecidableEq, Repr, Inhabited
 
 /-- `Term`; `App { op, args, ret_ty }` with 1, 2 or 3 arguments -/
@@ -260,6 +264,12 @@ def recordGet (t : Term) (a : Attr) : Term :=
     | some ty => .app1 (.recordGet a) t ty
     | none => t
 
+/-- `factory::string_like` (`OrdPattern::wildcard_match` is the evaluator's `Pattern::wildcard_match`, model `wm`) -/
+def stringLike (t : Term) (p : Pattern) : Term :=
+  match t with
+  | .prim (.string s) => .prim (.bool (wm p s.toList))
+  | t => .app1 (.stringLike p) t .bool
+
 /-- the fall-through arm of `factory::is_none` -/
 def isNoneDefault (t : Term) : Term :=
   match t.typeOf with
@@ -428,6 +438,18 @@ def compileApp1 (op : UnaryOp) (t : Term) : CResult :=
   | .neg, .bitvec64 => .ok (ifFalse (bvnego t) (bvneg t))
   | _, _ => .error .typeError      -- (`isEmpty`: the model has no set-typed terms)
 
+/-- `compile_like` -/
+def compileLike (t : Term) (p : Pattern) : CResult :=
+  match t.typeOf with
+  | .string => .ok (someOf (stringLike t p))
+  | _ => .error .typeError
+
+/-- `compile_is` -/
+def compileIs (t : Term) (ety1 : EntityType) : CResult :=
+  match t.typeOf with
+  | .entity ety2 => .ok (someOf (.prim (.bool (ety1 == ety2))))
+  | _ => .error .typeError
+
 /-- `reducible_eq` -/
 def reducibleEq (ty1 ty2 : TermType) : Except CErr Bool :=
   if ty1 == ty2 then .ok true
@@ -543,6 +565,20 @@ def compile (env : SymEnvLit) : Expr → CResult
       match compileGetAttr (optionGet t1) attr with
       | .error e => .error e
       | .ok r => .ok (ifSome t1 r)
+  | .like a p =>
+    match compile env a with
+    | .error e => .error e
+    | .ok t1 =>
+      match compileLike (optionGet t1) p with
+      | .error e => .error e
+      | .ok r => .ok (ifSome t1 r)
+  | .is a ety =>
+    match compile env a with
+    | .error e => .error e
+    | .ok t1 =>
+      match compileIs (optionGet t1) ety with
+      | .error e => .error e
+      | .ok r => .ok (ifSome t1 r)
   | _ => .error .outside
 
 /-! ### the declared fragment and the reading of a folded term -/
@@ -592,6 +628,9 @@ inductive SFrag2 : Expr → Prop where
   | mul {a b : Expr} : SFrag2 a → SFrag2 b → SFrag2 (.binaryApp .mul a b)
   | getAttr {a : Expr} (attr : Attr) : SFrag2 a → SFrag2 (.getAttr a attr)
   | hasAttr {a : Expr} (attr : Attr) : SFrag2 a → SFrag2 (.hasAttr a attr)
+  /-- FOURTH addition: `e like pat` (string-typed operand) and `e is T` (entity-typed operand) -/
+  | like {a : Expr} (p : Pattern) : SFrag2 a → SFrag2 (.like a p)
+  | is {a : Expr} (ety : EntityType) : SFrag2 a → SFrag2 (.is a ety)
 
 /-- decidable version of `SFrag2`, for the driver -/
 def inFrag2 : Expr → Bool
@@ -607,6 +646,8 @@ def inFrag2 : Expr → Bool
     (match op with | .eq | .less | .lessEq | .add | .sub | .mul => true | _ => false) && inFrag2 a && inFrag2 b
   | .getAttr a _ => inFrag2 a
   | .hasAttr a _ => inFrag2 a
+  | .like a _ => inFrag2 a
+  | .is a _ => inFrag2 a
   | _ => false
 
 /-- decidable version, for the driver -/
